@@ -102,5 +102,86 @@ Theorem merge_is_table_of_concat fl r1 r2 f :
   fold_left (add_read fl) (r1 ++ r2) (fun _ => 0) f ==
   fold_left (add_read fl) r1 (fun _ => 0) f + fold_left (add_read fl) r2 (fun _ => 0) f.
 Proof. rewrite !table_is_weighted_sum, map_app. induction (map (contrib fl f) r1); simpl; lra. Qed.
-Print Assumptions table_is_weighted_sum.
-Print Assumptions read_contribution_le_1.
+
+(* ====================================================================================================================
+   Strategy table (hand-modelled from CountingStrategy; the harness compares flags_of with the real predicates for every
+   member of the enum) and the documented weight of every strategy x assignment type x feature count.
+   ==================================================================================================================== *)
+Inductive strategy := UniqueOnly | WithAmbiguous | UniqueSplicingConsistent | UniqueInconsistent | AllReads.
+Definition all_strategies := [UniqueOnly; WithAmbiguous; UniqueSplicingConsistent; UniqueInconsistent; AllReads].
+(* CountingStrategy.ambiguous / inconsistent_minor / inconsistent / no_inconsistent *)
+Definition s_ambiguous s := match s with AllReads | WithAmbiguous => true | _ => false end.
+Definition s_inconsistent_minor s := match s with UniqueSplicingConsistent | UniqueInconsistent | AllReads => true | _ => false end.
+Definition s_inconsistent s := match s with UniqueInconsistent | AllReads => true | _ => false end.
+Definition s_no_inconsistent s := match s with UniqueOnly | WithAmbiguous => true | _ => false end.
+(* CountingStrategyFlags.__init__ *)
+Definition flags_of (s:strategy) : flags := {| use_amb := s_ambiguous s; use_inc_minor := s_inconsistent_minor s; use_inc := s_inconsistent s |}.
+Lemma flags_of_table : map flags_of all_strategies = [unique_only; with_ambiguous; unique_splicing_consistent; unique_inconsistent; all_].
+Proof. reflexivity. Qed.
+
+Definition is_unique t := match t with Unique | UniqueMinor => true | _ => false end.
+Definition is_inconsistent t := match t with Inconsistent | InconsNonIntronic | InconsAmbiguous => true | _ => false end.
+Definition is_unassigned t := match t with Noninformative | Intergenic => true | _ => false end.
+
+(* the weight every feature of a record receives in AssignedFeatureCounter.add_read_info, as a function of type and feature count *)
+Definition weight_tk (fl:flags) (t:atype) (k:nat) : Q :=
+  match t with
+  | Noninformative | Intergenic | Suspended => 0
+  | Ambiguous => process_ambiguous fl k
+  | Inconsistent | InconsNonIntronic | InconsAmbiguous => process_inconsistent fl t k
+  | Unique | UniqueMinor => 1
+  end.
+Lemma weight_is_weight_tk fl r : weight fl r = weight_tk fl (r_type r) (length (r_feats r)).
+Proof. unfold weight, weight_tk. destruct (r_type r); reflexivity. Qed.
+
+(* what docs/cmd.md prescribes, written as an explicit table over the strategy names (no flags involved):
+   unique reads always count 1; a consistent read shared by k >= 2 features counts 1/k under with_ambiguous / all and 0 otherwise;
+   a single-feature inconsistent read counts under unique_inconsistent / all (and, when only non-intronic, under
+   unique_splicing_consistent); inconsistent reads shared by several features only under all, split equally. *)
+Definition documented (s:strategy) (t:atype) (k:nat) : Q :=
+  let share := 1 / qk k in
+  match t with
+  | Unique | UniqueMinor => 1
+  | Ambiguous => if Nat.eqb k 1 then 1 else match s with WithAmbiguous | AllReads => share | _ => 0 end
+  | Inconsistent => if Nat.eqb k 1 then match s with UniqueInconsistent | AllReads => 1 | _ => 0 end
+                    else match s with AllReads => share | _ => 0 end
+  | InconsNonIntronic => if Nat.eqb k 1 then match s with UniqueSplicingConsistent | UniqueInconsistent | AllReads => 1 | _ => 0 end
+                         else match s with AllReads => share | _ => 0 end
+  | InconsAmbiguous => match s with AllReads => share | _ => 0 end
+  | Noninformative | Intergenic | Suspended => 0
+  end.
+
+Theorem weight_table s t k : (0 < k)%nat -> weight_tk (flags_of s) t k = documented s t k.
+Proof. intros H. destruct k as [|[|k]]; [lia| |]; destruct s, t; reflexivity. Qed.
+
+Theorem weight_tk_range fl t k : (0 < k)%nat -> 0 <= weight_tk fl t k <= 1.
+Proof. intros H. unfold weight_tk. destruct t; try (split; lra); try apply pa_range; apply pi_range, H. Qed.
+
+(* total contribution of one record to one table: k features times the weight, for every strategy *)
+Theorem contribution_tk_le_1 fl t k : (0 < k)%nat -> (is_unique t = true -> k = 1%nat) -> qk k * weight_tk fl t k <= 1.
+Proof. intros Hk Hu.
+  pose (r := {| r_type := t; r_feats := repeat 0%N k; r_confirms := false |}).
+  assert (L: length (r_feats r) = k) by (apply repeat_length).
+  pose proof (read_contribution_le_1 fl r) as P. rewrite weight_is_weight_tk, L in P. cbn [r_type r] in P.
+  apply P; [exact Hk|]. destruct t; try exact Logic.I; apply Hu; reflexivity. Qed.
+(* ... and it is exactly 0 or 1 *)
+Theorem contribution_tk_0_or_1 fl t k : (0 < k)%nat -> (is_unique t = true -> k = 1%nat) ->
+  qk k * weight_tk fl t k == 0 \/ qk k * weight_tk fl t k == 1.
+Proof. intros Hk Hu. assert (One: qk 1 == 1) by reflexivity. assert (P: 0 < qk k) by (apply qk_pos, Hk).
+  assert (Z0: forall q, q == 0 -> qk k * q == 0) by (intros q E; rewrite E; lra).
+  assert (K1: use_amb fl = use_amb fl -> qk k * (1 / qk k) == 1) by (intros _; apply k_inv_k, Hk).
+  destruct t; cbn [weight_tk]; try (left; apply Z0; reflexivity);
+    try (right; rewrite (Hu eq_refl), One; lra).
+  - unfold process_ambiguous. destruct k as [|[|k']]; [lia|right; rewrite One; lra|].
+    destruct (use_amb fl); [right; apply K1; reflexivity|left; apply Z0; reflexivity].
+  - unfold process_inconsistent. destruct (is_ia Inconsistent || Nat.ltb 1 k) eqn:E.
+    + destruct (use_amb fl && use_inc fl); [right; apply K1; reflexivity|left; apply Z0; reflexivity].
+    + simpl in E. apply Nat.ltb_ge in E. assert (k = 1%nat) by lia. subst k.
+      destruct (use_inc fl); [right; rewrite One; lra|]. destruct (use_inc_minor fl && is_ni Inconsistent); [right|left]; rewrite One; lra.
+  - unfold process_inconsistent. destruct (is_ia InconsNonIntronic || Nat.ltb 1 k) eqn:E.
+    + destruct (use_amb fl && use_inc fl); [right; apply K1; reflexivity|left; apply Z0; reflexivity].
+    + simpl in E. apply Nat.ltb_ge in E. assert (k = 1%nat) by lia. subst k.
+      destruct (use_inc fl); [right; rewrite One; lra|]. destruct (use_inc_minor fl && is_ni InconsNonIntronic); [right|left]; rewrite One; lra.
+  - unfold process_inconsistent. simpl.
+    destruct (use_amb fl && use_inc fl); [right; apply K1; reflexivity|left; apply Z0; reflexivity].
+Qed.
